@@ -386,6 +386,50 @@ pub fn run(tier: &str) -> i32 {
             }
         }
     }
+    // ---- the same for maps whose keys are not in alphabetical order, read through wildcards, key filters and key captures
+    {
+        let rules = "rule star { Servers.*.role == \"frontend\" }\nrule some_star { some Servers.*.role == \"frontend\" }\nrule keyf { Servers[ keys == /^w/ ].role == \"frontend\" }\nrule cap {\n  Servers[ name | role == \"frontend\" ] !empty\n  %name == \"web\"\n}\nrule capn {\n  Servers[ n2 | role == \"backend\" ] !empty\n  %n2 in [\"api\", \"db\"]\n}\nrule first { Servers.web.role == \"frontend\" }\n";
+        let names = ["star", "some_star", "keyf", "cap", "capn", "first"];
+        let rp = put("c16k/x.guard", rules);
+        for doc in [
+            "{\"Servers\": {\"web\": {\"role\": \"frontend\"}, \"api\": {\"role\": \"backend\"}, \"db\": {\"role\": \"backend\"}}}",
+            "{\"Servers\": {\"db\": {\"role\": \"backend\"}, \"web\": {\"role\": \"frontend\"}, \"api\": {\"role\": \"backend\"}}}",
+            "{\"Servers\": {\"api\": {\"role\": \"backend\"}, \"db\": {\"role\": \"backend\"}, \"web\": {\"role\": \"frontend\"}}}",
+            "{\"Servers\": {\"zeta\": {\"role\": \"frontend\"}, \"web\": {\"role\": \"backend\"}, \"alpha\": {\"role\": \"frontend\"}}}",
+        ] {
+            let dp = put("c16k/d.json", doc);
+            let vo = cli_inproc(&sv(&["validate", "-r", &rp, "-d", &dp, "-S", "all"]), "");
+            let table = crate::report::parse_plain(&vo.out, "sls");
+            let mut vst: BTreeMap<String, &str> = BTreeMap::new();
+            for tb in &table.tables {
+                for n in &tb.pass {
+                    vst.insert(n.clone(), "PASS");
+                }
+                for n in &tb.fail {
+                    vst.insert(n.clone(), "FAIL");
+                }
+                for n in &tb.skip {
+                    vst.insert(n.clone(), "SKIP");
+                }
+            }
+            if vst.len() != names.len() {
+                continue;
+            }
+            let exp: Vec<String> = names.iter().map(|n| format!("\"{}\": \"{}\"", n, vst[*n])).collect();
+            let tf = format!("[{{\"name\": \"t\", \"input\": {}, \"expectations\": {{\"rules\": {{{}}}}}}}]", doc, exp.join(", "));
+            let tp = put("c16k/x_tests.json", &tf);
+            for fmt in [vec![], vec!["-o", "json"]] {
+                let mut argv = sv(&["test", "-r", &rp, "-t", &tp]);
+                argv.extend(sv(&fmt));
+                let o = cli_inproc(&argv, "");
+                vt += 1;
+                res.acc.traces += 1;
+                if o.panic.is_some() || o.status() != 0 {
+                    res.acc.violate("test-vs-validate-command:map-key-order", format!("input {}: validate prints {:?}; test with exactly these expectations exits {} | {}", doc, vst, o.status(), o.out.lines().filter(|l| l.contains("Expected")).take(3).collect::<Vec<_>>().join(" / ")), json!({"kind":"cli","argv":argv,"stdin":"","files":{"x.guard":rules,"x_tests.json":tf},"expected":"exit 0","observed":format!("exit {}", o.status())}));
+                }
+            }
+        }
+    }
     rep.extra.insert("test_vs_validate_command_runs".into(), json!(vt));
     rep.states = res.acc.nontrivial + vt;
     rep.transitions = res.acc.nontrivial + b.transitions + vt;
